@@ -32,6 +32,13 @@ func (me modEntry) register(g *fgen, k string) {
 
 type modset struct {
 	all    bool
+	// heapOnly (with all): every real heap cell may change, ghost variables not in
+	// `any` are preserved ("modifies heap").
+	heapOnly bool
+	// coarse classes: every heap key whose root type/global belongs to one of these
+	// packages (mangled prefix), and every scalar element/box/map heap.
+	pkgs        map[string]bool
+	scalarElems bool
 	any    map[string]modEntry // written through a pre-existing object
 	fresh  map[string]modEntry // written only through objects allocated in the same function
 	allocs bool
@@ -46,6 +53,9 @@ func (m *modset) union(o *modset) {
 	if o.all {
 		if !m.all {
 			m.why = o.why
+			m.heapOnly = o.heapOnly
+		} else {
+			m.heapOnly = m.heapOnly && o.heapOnly
 		}
 		m.all = true
 	}
@@ -58,7 +68,46 @@ func (m *modset) union(o *modset) {
 	if o.allocs {
 		m.allocs = true
 	}
+	for p := range o.pkgs {
+		if m.pkgs == nil {
+			m.pkgs = map[string]bool{}
+		}
+		m.pkgs[p] = true
+	}
+	if o.scalarElems {
+		m.scalarElems = true
+	}
 }
+
+// coarse reports whether key is covered by the coarse classes of the mod-set.
+func (m *modset) coarse(key string) bool {
+	if len(key) < 3 {
+		return false
+	}
+	if strings.HasPrefix(key, "G_ghost_") {
+		return false
+	}
+	rest := key[2:]
+	if strings.HasPrefix(key, "MH_") || strings.HasPrefix(key, "MV_") || strings.HasPrefix(key, "ML_") {
+		return m.scalarElems
+	}
+	for p := range m.pkgs {
+		if strings.HasPrefix(rest, p) {
+			return true
+		}
+	}
+	if m.scalarElems && (strings.HasPrefix(key, "E_") || strings.HasPrefix(key, "B_")) {
+		// scalar element / box heaps are named after an SMT sort, not a package type
+		switch {
+		case strings.HasPrefix(rest, "Int"), strings.HasPrefix(rest, "Bool"), strings.HasPrefix(rest, "String"),
+			strings.HasPrefix(rest, "Slice"), strings.HasPrefix(rest, "Iface"), strings.HasPrefix(rest, "__"), strings.HasPrefix(rest, "_Array"), strings.HasPrefix(rest, "arr_"):
+			return true
+		}
+	}
+	return false
+}
+
+func (m *modset) hasCoarse() bool { return len(m.pkgs) > 0 || m.scalarElems }
 
 func (m *modset) keys() []string {
 	var ks []string
@@ -171,7 +220,7 @@ func (w *world) modsetOf(fn *ssa.Function) *modset {
 	w.modsets[fn] = nil
 	ms := newModset()
 	if fn.Blocks == nil {
-		ms.all = true
+		ms.all, ms.heapOnly = true, false
 		ms.why = "no body: " + fn.String()
 	} else {
 		kg := w.keygen()
@@ -196,7 +245,7 @@ func (w *world) instrMods(kg *fgen, in ssa.Instruction, ms *modset) {
 	case *ssa.Store:
 		sl := kg.staticLoc(x.Addr)
 		if sl == nil {
-			ms.all = true
+			ms.all, ms.heapOnly = true, false
 			ms.why = "store through unresolved address"
 			return
 		}
@@ -237,7 +286,7 @@ func (w *world) instrMods(kg *fgen, in ssa.Instruction, ms *modset) {
 			ms.fresh[l] = modEntry{rootField, nil, mt}
 		}
 	case *ssa.Go, *ssa.Send, *ssa.Select:
-		ms.all = true
+		ms.all, ms.heapOnly = true, false
 		ms.why = "concurrency"
 	case ssa.CallInstruction:
 		w.callMods(kg, x, ms)
@@ -252,7 +301,7 @@ func (w *world) callMods(kg *fgen, x ssa.CallInstruction, ms *modset) {
 			w.declMods(kg, fc, ms)
 			return
 		}
-		ms.all = true
+		ms.all, ms.heapOnly = true, false
 		ms.why = "interface call " + c.Method.FullName()
 		return
 	}
@@ -287,7 +336,7 @@ func (w *world) callMods(kg *fgen, x ssa.CallInstruction, ms *modset) {
 	}
 	callee := c.StaticCallee()
 	if callee == nil {
-		ms.all = true
+		ms.all, ms.heapOnly = true, false
 		ms.why = "dynamic call"
 		return
 	}
@@ -308,8 +357,9 @@ func (w *world) callMods(kg *fgen, x ssa.CallInstruction, ms *modset) {
 	}
 	cm := w.modsetOf(callee)
 	if cm.all {
-		ms.all = true
-		ms.why = "call to " + callee.String() + " (" + cm.why + ")"
+		why := "call to " + callee.String() + " (" + cm.why + ")"
+		ms.union(cm)
+		ms.why = why
 		return
 	}
 	ms.union(cm)
@@ -351,7 +401,7 @@ func (w *world) libraryFrame(kg *fgen, callee *ssa.Function, args []ssa.Value) *
 			if f, isFn := a.(*ssa.Function); isFn {
 				ms.union(w.modsetOf(f))
 			} else {
-				ms.all = true
+				ms.all, ms.heapOnly = true, false
 				ms.why = "function value passed to library function " + callee.String()
 			}
 		}
@@ -363,13 +413,37 @@ func (w *world) libraryFrame(kg *fgen, callee *ssa.Function, args []ssa.Value) *
 func (w *world) declMods(kg *fgen, fc *funcContract, ms *modset) {
 	for _, m := range fc.modifies {
 		if m == "*" {
-			ms.all = true
+			ms.all, ms.heapOnly = true, false
 			ms.why = "modifies * on " + fc.key
 			return
 		}
+		if m == "elems" {
+			ms.scalarElems = true
+			continue
+		}
+		if strings.HasPrefix(m, "pkg(") && strings.HasSuffix(m, ")") {
+			name := strings.TrimSpace(m[4 : len(m)-1])
+			p := kg.findPkgByName(w.allTPkg[fc.pkgPath], name)
+			if p == nil {
+				ms.all, ms.heapOnly = true, false
+				ms.why = "modifies pkg(" + name + "): unknown package"
+				return
+			}
+			if ms.pkgs == nil {
+				ms.pkgs = map[string]bool{}
+			}
+			ms.pkgs[mangle(p.Path()+".")] = true
+			continue
+		}
+		if m == "heap" {
+			o := newModset()
+			o.all, o.heapOnly, o.why = true, true, "modifies heap on "+fc.key
+			ms.union(o)
+			continue
+		}
 		keys, err := kg.modKeys(fc, m)
 		if err != nil {
-			ms.all = true
+			ms.all, ms.heapOnly = true, false
 			ms.why = err.Error()
 			return
 		}
